@@ -76,6 +76,19 @@ def ENUM(path):
     return Spec("enum", path)
 
 
+def PYLIST(*elems):
+    return Spec("pylist", *elems)
+
+
+def PYDICT(**items):
+    return Spec("pydict", **items)
+
+
+def JSONOV(**overlay):
+    """JSON dict value some of whose keys have been replaced in place by non-JSON values"""
+    return Spec("jsonov", **overlay)
+
+
 def OBJSEQ(cls, **fields):
     return Spec("objseq", cls, **fields)
 
@@ -268,6 +281,22 @@ class Verifier:
                 cur = nxt
             for s1, acc in cur:
                 yield s1, tuple(acc)
+        elif tag in ("pylist", "pydict", "jsonov"):
+            items = list(enumerate(spec.a)) if tag == "pylist" else list(spec.kw.items())
+            cur = [(st, [])]
+            for k, sp in items:
+                nxt = []
+                for s1, acc in cur:
+                    for s2, v in self.make(s1, sp, "%s.%s" % (name, k)):
+                        nxt.append((s2, acc + [(k, v)]))
+                cur = nxt
+            for s1, acc in cur:
+                if tag == "pylist":
+                    yield s1, s1.new_list([v for _, v in acc])
+                elif tag == "pydict":
+                    yield s1, s1.new_dict(dict(acc))
+                else:
+                    yield s1, JVal(tm.Fresh(name, J), s1.alloc(dict(acc)))
         elif tag == "oneof":
             alts = list(spec.a)
             for k, alt in enumerate(alts):
